@@ -74,7 +74,8 @@ def replay_row(args):
             for (eps, tc), idxs in sorted(groups(cons).items()):
                 df, cdict = build(col, cons, idxs, variant, pool)
                 # a few constraints are additionally placed on fields the data lacks
-                missing = [i for i in idxs if not cons[i]['isnull']][:3]
+                # (a null-valued constraint on a field the data lacks is still a constraint on a field the data lacks)
+                missing = [i for i in idxs if not cons[i]['isnull']][:3] + [i for i in idxs if cons[i]['isnull']]
                 for i in missing:
                     cdict['fields']['m%d' % i] = {cons[i]['k']: cl.con_value(cons[i], col['t'], pool)}
                     if cons[i]['k'] in ('min', 'max') and cons[i]['vt'] == 'date':
